@@ -111,8 +111,9 @@ def real_wl(w, linelen, indent, spaces, cont, items):
     return "ok %d %s" % (w.indent, common.encs(lines))
 
 
-def real_wof(comment, fname, version, copyright, linelen, spaces, cont, items):
-    """real util.WrapperMixin.write_output_file into a scratch directory"""
+def real_wof(comment, fname, version, copyright, linelen, spaces, cont, items, prior=None):
+    """real util.WrapperMixin.write_output_file into a scratch directory; `prior` (bytes or a function of the
+    text a first run writes) is planted as the file's earlier contents before the observed run"""
     import contextlib
     import io as _io
     from shroud import util
@@ -140,6 +141,15 @@ def real_wof(comment, fname, version, copyright, linelen, spaces, cont, items):
     try:
         try:
             with contextlib.redirect_stdout(_io.StringIO()):
+                if prior is not None:
+                    if callable(prior):
+                        w.write_output_file(fname, d, list(items), spaces)
+                        first = open(os.path.join(d, fname), newline="").read()
+                        planted = prior(first)
+                    else:
+                        planted = prior
+                    with open(os.path.join(d, fname), "w", newline="") as fpp:
+                        fpp.write(planted)
                 w.write_output_file(fname, d, list(items), spaces)
         except Exception as e:  # noqa
             return "crash " + type(e).__name__
